@@ -89,7 +89,16 @@ def programs(seed, n, kind="abelian", syms=gen.SYMS, tids=None, dtypes=("float64
         steps = tensordot_steps(rng, ra, len(b["ix"]), axes_a, axes_b, modes)
         if ra in (1, 2) and len(b["ix"]) in (1, 2) and ncon == 1 and axes_a == [ra - 1] and axes_b == [0]:
             steps.append({"op": "matmul", "in": ["a", "b"], "out": ["m"], "args": {}})
-        progs.append({"tid": tids(), "inputs": {"a": a, "b": b}, "steps": steps,
+        inputs = {"a": a, "b": b}
+        if i % 3 == 0 and ncon:
+            # the same pair of structures with the OTHER kind of numbers, contracted right after (warm plans)
+            other = "complex128" if a["dtype"] in ("float64", "float32") else "float64"
+            inputs["a2"] = dict(a, dtype=other, fill={"start": 3, "step": 1, "alt": True})
+            inputs["b2"] = dict(b, dtype=other, fill={"start": 13, "step": 1, "alt": True})
+            for mode in ("fused", "auto"):
+                steps.append({"op": "tensordot", "in": ["a2", "b2"], "out": [f"c2_{mode}"],
+                              "args": {"axes": [list(axes_a), list(axes_b)], "mode": mode, "preserve_array": True}, "entry": "symmray"})
+        progs.append({"tid": tids(), "inputs": inputs, "steps": steps,
                       "group": f"{salt}-{kind}-{i}"})
     return progs
 
